@@ -1,3 +1,228 @@
+(* C37 — Ignore decisions agree with git check-ignore: the theorems.  See NOTES.md for what is proved
+   (the decision procedure over pattern lists, line handling, the shortcuts of Pattern::matches) and
+   what is only tested (pattern-level agreement of parse_path_pattern/match_pathname with gix-glob's
+   flags, the `*literal` shortcut, wildmatch itself which is C36's subject). *)
+From Coq Require Import List Bool.
+Import ListNotations.
 From GixV.Base Require Import Bytes.
-From GixV.C37 Require Import Wild Model.
-Example placeholder : parse_ignore [] = []. Proof. reflexivity. Qed.
+From GixV.C37 Require Import Wild GitWild Model Spec ProofsBytes ProofsShortcut ProofsSuffix ProofsParse ProofsWalk.
+
+(* The whole property, for reference: for all ignore files, paths and both settings of core.ignoreCase
+   the pattern gitoxide reports is the one git reports. It is FALSE of the code (see the refutations
+   below and the known classes of findings.txt); what is proved are the parts that follow. *)
+Definition same_answer (a : option (plist * mapping)) (b : option (glist * gpat)) : Prop :=
+  match a, b with
+  | None, None => True
+  | Some (l, m), Some (g, p) =>
+      lsrc l = gsrc g /\ mline m = gline p /\ is_negative (l, m) = g_negative (g, p)
+  | _, _ => False
+  end.
+Definition ignore_is_git_full_statement : Prop :=
+  forall cf fs path is_dir,
+    same_answer (ignore_query cf fs path is_dir) (git_ignore_query git_wildmatch cf fs path is_dir).
+
+(* ---- the decision procedure ------------------------------------------------------------------- *)
+
+(* For ANY kind of pattern list, loader of per-directory files and matcher (the same on both sides):
+   the directory stack of gix-worktree (every leading directory is matched when it is pushed, the
+   deepest one with a match decides) returns what git's prep_exclude/last_matching_pattern walk returns
+   (stop at the top-most excluded directory, files below it are not even read), unless the top-most
+   excluded directory has a directory below it that some pattern matches (class
+   deepest-directory-match-wins); the only other difference is that gitoxide reports the negative
+   pattern that matched a leading directory where git reports no pattern at all (class
+   negative-parent-dir-match-reported). *)
+Theorem stack_rule_is_git_walk_except_known :
+  forall (L R : Type) (load : bytes -> L) (M : list L -> bytes -> bool -> option R) (neg : R -> bool)
+         (dirs : list bytes) (path : bytes) (is_dir : bool),
+    shadowed R neg (dir_matches L R load M dirs [load []]) = false ->
+    stack_query L R load M neg dirs path is_dir = git_query L R load M neg dirs path is_dir \/
+    (git_query L R load M neg dirs path is_dir = None /\
+     exists dm, stack_query L R load M neg dirs path is_dir = Some dm /\ neg dm = true).
+Proof.
+  intros. rewrite stack_query_spec, git_query_spec.
+  destruct (rules_agree R neg _ (M (final_stack L load dirs [load []]) path is_dir) H)
+    as [E|(Hg & dm & Hx & Hn & _)]; [left; exact E|right].
+  split; [exact Hg|]. exists dm. split; assumption.
+Qed.
+
+(* ... and the ignored / not ignored answer is the same without exception outside that class *)
+Theorem excluded_is_git_walk_except_known :
+  forall (L R : Type) (load : bytes -> L) (M : list L -> bytes -> bool -> option R) (neg : R -> bool)
+         (dirs : list bytes) (path : bytes) (is_dir : bool),
+    shadowed R neg (dir_matches L R load M dirs [load []]) = false ->
+    excluded R neg (stack_query L R load M neg dirs path is_dir) =
+    excluded R neg (git_query L R load M neg dirs path is_dir).
+Proof. intros. rewrite stack_query_spec, git_query_spec. now apply rules_agree_excluded. Qed.
+
+(* the class is exact in this direction: when git answers with the pattern that excluded a leading
+   directory and gitoxide answers anything else, the stack is shadowed *)
+Theorem deviation_below_excluded_directory_only_if_known :
+  forall (L R : Type) (load : bytes -> L) (M : list L -> bytes -> bool -> option R) (neg : R -> bool)
+         (dirs : list bytes) (path : bytes) (is_dir : bool) (m : R),
+    first_positive R neg (dir_matches L R load M dirs [load []]) = Some m ->
+    stack_query L R load M neg dirs path is_dir <> Some m ->
+    shadowed R neg (dir_matches L R load M dirs [load []]) = true.
+Proof. intros until m. rewrite stack_query_spec. apply rules_differ_only_if_shadowed. Qed.
+
+(* the model of gix-worktree is an instance: Platform::is_excluded is git's walk over gitoxide's own
+   pattern lists and matcher *)
+Theorem is_excluded_is_git_walk_except_known :
+  forall cf fs path is_dir,
+    shadowed (plist * mapping) is_negative
+      (dir_matches plist (plist * mapping) (dir_list fs) (groups_match cf (global_lists fs))
+                   (leading_dirs [] path) [dir_list fs []]) = false ->
+    is_excluded cf fs path is_dir =
+    excluded (plist * mapping) is_negative
+      (git_query plist (plist * mapping) (dir_list fs) (groups_match cf (global_lists fs)) is_negative
+                 (leading_dirs [] path) path is_dir).
+Proof.
+  intros cf fs path is_dir H. unfold is_excluded, ignore_query.
+  rewrite <- (excluded_is_git_walk_except_known _ _ _ _ _ _ path is_dir H). reflexivity.
+Qed.
+
+Definition bsl (s : String.string) : bytes := bs s.
+Definition lf (l : list bytes) : bytes := concat (map (fun x => x ++ [cLF]) l).
+
+(* the class is not empty: "a/" + "!a/b/" re-includes a/b/c in gitoxide, git ignores it (a parent
+   directory that is excluded cannot be re-included) *)
+Theorem ignore_is_git_refuted_reinclude :
+  let fs := [(bs "D", lf [bs "a/"; bs "!a/b/"])] in
+  is_excluded false fs (bs "a/b/c") false = false /\
+  (match git_ignore_query git_wildmatch false fs (bs "a/b/c") false with
+   | Some r => negb (g_negative r) | None => false end) = true.
+Proof. vm_compute. split; reflexivity. Qed.
+
+(* and the second class: "!a/" makes gitoxide report that pattern for a/x, git reports nothing *)
+Theorem ignore_is_git_refuted_negative_parent :
+  let fs := [(bs "D", lf [bs "!a/"])] in
+  (match ignore_query false fs (bs "a/x") false with Some r => is_negative r | None => false end) = true /\
+  git_ignore_query git_wildmatch false fs (bs "a/x") false = None.
+Proof. vm_compute. split; reflexivity. Qed.
+
+(* ---- inside one pattern list: the last matching pattern wins ---------------------------------- *)
+Theorem last_match_wins :
+  forall cf l path bpos is_dir m,
+    list_match cf l path bpos is_dir = Some m ->
+    exists p' b' before after,
+      strip_base cf (lbase l) path bpos = Some (p', b') /\
+      lpats l = before ++ m :: after /\
+      matches_rrp (mpat m) cf p' b' is_dir = true /\
+      forallb (fun x => negb (matches_rrp (mpat x) cf p' b' is_dir)) after = true.
+Proof. exact list_match_last. Qed.
+
+Theorem last_match_wins_git :
+  forall wm cf l pathname basename is_dir p,
+    g_from_list wm cf l pathname basename is_dir = Some p ->
+    exists before after,
+      gpats l = before ++ p :: after /\
+      g_pattern_matches wm cf l pathname basename is_dir p = true /\
+      forallb (fun x => negb (g_pattern_matches wm cf l pathname basename is_dir x)) after = true.
+Proof. exact g_from_list_last. Qed.
+
+(* ---- lines ---------------------------------------------------------------------------------------- *)
+
+(* truncate_non_escaped_trailing_spaces is git's trim_trailing_spaces, on every line *)
+Theorem trailing_spaces_are_gits : forall l, truncate_trailing_spaces l = g_trim_trailing_spaces l.
+Proof. exact truncate_is_git. Qed.
+
+(* the lines gix_ignore::parse sees (and therefore their numbers) are the segments git's
+   add_patterns_from_buffer sees in the buffer with LF appended, up to one trailing empty segment,
+   for every buffer, with or without BOM, CRLF, final LF *)
+Theorem line_splitting_is_gits :
+  forall content, exists tail, (tail = [] \/ tail = [[]]) /\
+    g_split [] (skip_bom (content ++ [cLF])) = split_lines [] (skip_bom content) ++ tail.
+Proof. exact lines_are_gits. Qed.
+
+Theorem git_file_is_entries_of_gix_lines :
+  forall content, content <> [] ->
+    g_parse_file content = g_entries 1 (split_lines [] (skip_bom content)).
+Proof. exact g_parse_file_lines. Qed.
+
+Theorem cr_rule_is_gits :
+  forall seg, seg <> [] -> (if beqb (last_byte seg) cCR then removelast seg else seg) = strip_cr seg.
+Proof. exact git_cr_is_strip_cr. Qed.
+
+(* ---- the shortcuts of Pattern::matches --------------------------------------------------------- *)
+
+(* every pattern the parser produces (with or without negation support) records the wildcard position
+   of exactly the text it stores *)
+Theorem parsed_pattern_wildcard_pos :
+  forall may_alter line pt, parse_pattern may_alter line = Some pt -> pfwp pt = first_wildcard_pos (ptext pt).
+Proof. exact parse_fwp. Qed.
+
+(* shortcut_sound, two of its three parts: for every parsed pattern, every value and all flags, unless
+   the `*literal` suffix shortcut is taken, Pattern::matches (plain comparison without wildcard,
+   literal-prefix test otherwise) is wildmatch on the full text *)
+Theorem shortcut_sound_partial :
+  forall may_alter line pt cf pn value,
+    parse_pattern may_alter line = Some pt ->
+    (has_flag (pmode pt) ENDS_WITH && (negb pn || negb (has_slash value)) = false \/ pfwp pt = None) ->
+    pattern_matches pt cf pn value = wildmatch cf pn (ptext pt) value.
+Proof.
+  intros may_alter line pt cf pn value Hp Hc. pose proof (parse_fwp _ _ _ Hp) as Hf.
+  destruct (pfwp pt) as [pos|] eqn:E.
+  - destruct Hc as [Hc|Hc]; [|discriminate].
+    apply (L_prefix_shortcut pt cf pn value pos); [rewrite E; exact Hf|exact E|exact Hc].
+  - apply L_no_wildcard; [rewrite E; exact Hf|exact E].
+Qed.
+
+(* the third part: `*` followed by bytes without wildcard, against a value in which the star may match
+   everything (no NO_MATCH_SLASH_LITERAL or no slash in the value): wildmatch is the suffix comparison *)
+Theorem star_literal_is_suffix_test :
+  forall cf pn c r v,
+    literal (c :: r) -> (pn = false \/ has_slash v = false) ->
+    wildmatch cf pn (cSTAR :: c :: r) v = any_suffix (lit_eq cf (c :: r)) v.
+Proof. exact wildmatch_star_literal. Qed.
+
+(* shortcut_sound: for every pattern the parser produces, every value and all flags, Pattern::matches
+   (with its three fast paths) is wildmatch on the full pattern text *)
+Theorem shortcut_sound :
+  forall may_alter line pt cf pn value,
+    parse_pattern may_alter line = Some pt ->
+    pattern_matches pt cf pn value = wildmatch cf pn (ptext pt) value.
+Proof.
+  intros may_alter line pt cf pn value Hp.
+  destruct (has_flag (pmode pt) ENDS_WITH && (negb pn || negb (has_slash value))) eqn:C.
+  - pose proof C as C'. apply andb_true_iff in C'. destruct C' as [Hf _].
+    destruct (parse_ends_with _ _ _ Hp Hf) as (lit & Ht & Hl & Hw).
+    now apply (L_ends_with pt cf pn value lit).
+  - apply (shortcut_sound_partial may_alter line); auto.
+Qed.
+
+(* ---- non-vacuity ---------------------------------------------------------------------------------- *)
+Example unshadowed_stack_exists :
+  let fs := [(bs "D", lf [bs "*.o"; bs "!a/"]); (bs "Da", lf [bs "!x.o"])] in
+  shadowed (plist * mapping) is_negative
+    (dir_matches plist (plist * mapping) (dir_list fs) (groups_match false (global_lists fs))
+                 (leading_dirs [] (bs "a/x.o")) [dir_list fs []]) = false /\
+  is_excluded false fs (bs "a/x.o") false = false /\ is_excluded false fs (bs "a/y.o") false = true.
+Proof. vm_compute. repeat split; reflexivity. Qed.
+
+Example shadowed_stack_exists :
+  let fs := [(bs "D", lf [bs "a/"; bs "!a/b/"])] in
+  shadowed (plist * mapping) is_negative
+    (dir_matches plist (plist * mapping) (dir_list fs) (groups_match false (global_lists fs))
+                 (leading_dirs [] (bs "a/b/c")) [dir_list fs []]) = true.
+Proof. vm_compute. reflexivity. Qed.
+
+Example star_literal_example :
+  literal (bs ".o") /\ wildmatch false true (bs "*.o") (bs "x.o") = true /\ wildmatch true true (bs "*.O") (bs "x.o") = true /\
+  wildmatch false true (bs "*.o") (bs "x.c") = false.
+Proof. vm_compute. repeat split; reflexivity. Qed.
+
+Example parsed_patterns_exist :
+  (exists pt, parse_pattern true (bs "!/a*/") = Some pt /\ pfwp pt = Some 1%nat) /\
+  (exists pt, parse_pattern true (bs "\#x") = Some pt /\ pfwp pt = None /\ ptext pt = bs "#x") /\
+  (exists pt, parse_pattern false (bs "*.o") = Some pt /\ has_flag (pmode pt) ENDS_WITH = true).
+Proof. repeat split; eexists; vm_compute; repeat split; reflexivity. Qed.
+
+Example last_match_example :
+  let l := {| lsrc := bs "D"; lbase := None; lpats := parse_ignore (lf [bs "*.o"; bs "!x.o"; bs "y"]) |} in
+  option_map mline (list_match false l (bs "x.o") None false) = Some 2%N /\
+  option_map mline (list_match false l (bs "a.o") None false) = Some 1%N.
+Proof. vm_compute. split; reflexivity. Qed.
+
+Example lines_example :
+  map mline (parse_ignore (bs "a" ++ [cCR; cLF] ++ bs "#c" ++ [cLF; cLF] ++ bs "b" ++ [cCR])) = [1%N; 4%N] /\
+  map gline (g_parse_file (bs "a" ++ [cCR; cLF] ++ bs "#c" ++ [cLF; cLF] ++ bs "b" ++ [cCR])) = [1%N; 4%N].
+Proof. vm_compute. split; reflexivity. Qed.
